@@ -99,6 +99,10 @@ def insertGTerm (t : GTerm) : List GTerm → List GTerm
   | u :: r => if t.E < u.E then t :: u :: r else u :: insertGTerm t r
 def sumSortByExponent (l : List GTerm) : List GTerm := l.foldr insertGTerm []
 
+/-- `bigints.Sort` (`sort.Slice` by `Cmp`, in place): a primitive; every correct sort of a list of
+    integers returns the same list, so the particular algorithm is immaterial -/
+def bigintsSort (l : List Int) : List Int := l.mergeSort (fun a b => decide (a ≤ b))
+
 /-- `new(big.Int).Mul(x, y)` -/
 def bMul (x y : Int) : Int := x * y
 
